@@ -266,6 +266,43 @@ func RunCheck(o CheckOpts) int {
 		}(i, ob)
 	}
 	wg.Wait()
+	// Second chance for undecided obligations: a timeout or "unknown" under load is not a refutation. They are
+	// retried two at a time (the machine is otherwise idle then) with three times the budget; total retry time capped.
+	{
+		var again []int
+		for i, r := range results {
+			if r != nil && r.Kind != "cover" && !r.ok && (r.Status == "unknown" || r.Status == "timeout" || r.Status == "error") {
+				if f := kfEarly.Match(o.Prop, r.ID); f != nil && f.Status == "open" {
+					continue
+				}
+				again = append(again, i)
+			}
+		}
+		deadline := time.Now().Add(8 * time.Minute)
+		sem2 := make(chan struct{}, 2)
+		var wg2 sync.WaitGroup
+		for _, i := range again {
+			if time.Now().After(deadline) {
+				break
+			}
+			wg2.Add(1)
+			sem2 <- struct{}{}
+			go func(i int) {
+				defer wg2.Done()
+				defer func() { <-sem2 }()
+				r := results[i]
+				res := Solve(dir, fmt.Sprintf("%d_%s_retry", i, r.ID), r.obl.Query(w), 3*timeout, false)
+				if res.Status == "unsat" {
+					r.Status, r.Backend, r.Ms, r.res, r.ok = res.Status, res.Backend+"/retry", r.Ms+res.Ms, res, true
+				} else if res.Status == "sat" {
+					r.Status, r.Backend, r.Ms, r.res = res.Status, res.Backend+"/retry", r.Ms+res.Ms, res
+				} else {
+					r.Ms += res.Ms
+				}
+			}(i)
+		}
+		wg2.Wait()
+	}
 	for _, ob := range bindFailures {
 		results = append(results, &OblResult{ID: ob.Func + "/" + ob.Name, Function: ob.Func, Kind: "bind", Clause: ob.Clause, Status: "bind-failure", obl: ob, Class: "exact"})
 	}
